@@ -388,3 +388,36 @@ Proof. exact fit_total_nonconstant. Qed.
 Theorem C13_example_unconditional :
   exists coeffs, ar_new_fit RO (slice_invert RO) 5 [0; 1; 3] = Some (coeffs, smean [0; 1; 3]) /\ length coeffs = 5%nat.
 Proof. exact fit_unconditional_instance. Qed.
+
+(** ** Tie A: the model IS the source ([acovf], [acf], [difference], [AR::predict_one], [AR::predict]).
+    [Generated/ts_loops.v] is regenerated on every run from src/timeseries/{functions,autoregressive}.rs by the
+    statement-level translator (tools/rsexpr.py, target tools/tiea/ts_loops.py): iterator chains and loops are folds over
+    lists, slices are lists, [usize] lives in [Z] (unsigned [a - b] = the release build's wrapping [rs_usub]), a panic
+    (out-of-bounds index or slice, capacity overflow of an allocation) is [None].  For every carrier, operations record
+    and input the generated function and the function of Model/TimeSeries.v agree.  [statistics::mean] and [linalg::dot]
+    (other files) are parameters of the generated text, instantiated by the models [ts_mean] and [Reduce.dot]; [AR::fit]
+    is outside the translator's subset (the target checks on every run that it is still refused). *)
+From Compute Require Import Base.RsExpr Generated.ts_loops Proofs.TieA_ts_loops.
+(** the checked reads [ts[i]], [ts[i - |k|]] over [|k| .. n] are in bounds: the source never panics, for any lag *)
+Theorem C13_model_is_source_acovf :
+  forall (T : Type) (O : Ops T) (ts : list T) (k : Z), src_acovf O (ts_mean O) ts k = Some (acovf O ts k).
+Proof. exact @tiea_acovf. Qed.
+Theorem C13_model_is_source_acf :
+  forall (T : Type) (O : Ops T) (ts : list T) (k : Z), src_acf O (ts_mean O) ts k = Some (acf O ts k).
+Proof. exact @tiea_acf. Qed.
+(** the empty vector panics through the wrapped [0 - 1] and the first out-of-bounds read *)
+Theorem C13_model_is_source_difference :
+  forall (T : Type) (O : Ops T) (v : list T), src_difference O v = difference O v.
+Proof. exact @tiea_difference. Qed.
+Theorem C13_model_is_source_predict_one :
+  forall (T : Type) (O : Ops T) (coeffs : list T) (intercept : T) (data : list T),
+    src_predict_one O (dot O) coeffs intercept data = predict_one O coeffs intercept data.
+Proof. exact @tiea_predict_one. Qed.
+(** the loop that overwrites slot [i] of the zero-padded vector with [predict_one(&d[..i])] is the model's loop that
+    appends; a history shorter than the coefficient vector panics (out-of-bounds slice after the wrapped subtraction).
+    [n] forecasts pass the allocation's capacity check (2^60 f64s) and the number of coefficients is a [usize]. *)
+Theorem C13_model_is_source_predict :
+  forall (T : Type) (O : Ops T) (coeffs : list T) (intercept : T) (data : list T) (n : nat),
+    (Z.of_nat n <= 1152921504606846975)%Z -> (Z.of_nat (length coeffs) < 18446744073709551616)%Z ->
+    src_predict O (dot O) coeffs intercept data (Z.of_nat n) = predict O coeffs intercept data n.
+Proof. exact @tiea_predict. Qed.
